@@ -83,10 +83,13 @@ type symxer struct {
 	busy    map[ssa.Value]bool
 	// Unwrap interface boxing/conversions between identical underlying types
 	keepConv bool
+	// loadVal: for a load resolved to exactly one reaching store, the stored value
+	loadVal    map[*ssa.UnOp]ssa.Value
+	lastSingle ssa.Value
 }
 
 func newSymx(p *Prog) *symxer {
-	return &symxer{p: p, depth: 10, memo: map[ssa.Value]*Sx{}, busy: map[ssa.Value]bool{}}
+	return &symxer{p: p, depth: 10, memo: map[ssa.Value]*Sx{}, busy: map[ssa.Value]bool{}, loadVal: map[*ssa.UnOp]ssa.Value{}}
 }
 
 func (sx *symxer) Of(v ssa.Value) *Sx { return sx.of(v, sx.depth) }
@@ -348,46 +351,71 @@ func (sx *symxer) load(u *ssa.UnOp, d int) *Sx {
 		}
 		return nil
 	}
-	// several whole-cell stores in the same function: keep only those that reach this load
-	if path == "" && u.Parent() == al.Parent() {
-		if r := sx.loadCellAt(al, u, d); r != nil {
+	// several stores to the same path in the same function: keep only those that reach this load
+	if u.Parent() == al.Parent() {
+		sx.lastSingle = nil
+		if r := sx.loadCellAt(al, path, u, d); r != nil {
+			if sx.lastSingle != nil {
+				sx.loadVal[u] = sx.lastSingle
+			}
 			return r
 		}
 	}
-	return sx.loadCell(al, path, d)
+	sx.lastSingle = nil
+	r := sx.loadCell(al, path, d)
+	if r != nil && sx.lastSingle != nil {
+		sx.loadVal[u] = sx.lastSingle
+	}
+	return r
+}
+
+// StoredValue: the single stored value a load was resolved to (nil when unresolved or ambiguous)
+func (sx *symxer) StoredValue(u *ssa.UnOp) ssa.Value {
+	sx.Of(u)
+	return sx.loadVal[u]
 }
 
 // loadCellAt: reaching-stores analysis for a local cell whose whole-cell stores all sit in the
 // allocating function: the value a load sees is one of the stores that reach it (a store kills the
 // earlier ones). Returns nil when the cell has fewer than two stores or is also stored elsewhere.
-func (sx *symxer) loadCellAt(al *ssa.Alloc, at ssa.Instruction, d int) *Sx {
+func (sx *symxer) loadCellAt(al *ssa.Alloc, path string, at ssa.Instruction, d int) *Sx {
 	fn := al.Parent()
 	var stores []*ssa.Store
-	for _, ref := range *al.Referrers() {
-		switch t := ref.(type) {
+	bad := false
+	allInstrs(fn, func(in ssa.Instruction) {
+		switch t := in.(type) {
 		case *ssa.Store:
-			if t.Addr == ssa.Value(al) {
-				stores = append(stores, t)
+			a2, p2, ok := addrPath(t.Addr)
+			if !ok || a2 != al {
+				return
 			}
-		case *ssa.FieldAddr, *ssa.IndexAddr:
-			return nil // partial stores: not handled here
+			switch {
+			case p2 == path:
+				stores = append(stores, t)
+			case p2 == "" || path == "" || strings.HasPrefix(path, p2+".") || strings.HasPrefix(p2, path+"."):
+				bad = true // overlapping partial store
+			}
 		case *ssa.MakeClosure:
 			// closures that assign the cell defeat the local analysis
 			cf := t.Fn.(*ssa.Function)
-			bad := false
 			for i, b := range t.Bindings {
-				if b == ssa.Value(al) {
+				if a2, _, ok := addrPath(b); ok && a2 == al {
 					for _, r2 := range *cf.FreeVars[i].Referrers() {
-						if st, ok := r2.(*ssa.Store); ok && st.Addr == ssa.Value(cf.FreeVars[i]) {
+						switch st := r2.(type) {
+						case *ssa.Store:
+							if st.Addr == ssa.Value(cf.FreeVars[i]) {
+								bad = true
+							}
+						case *ssa.FieldAddr:
 							bad = true
 						}
 					}
 				}
 			}
-			if bad {
-				return nil
-			}
 		}
+	})
+	if bad {
+		return nil
 	}
 	if len(stores) < 2 {
 		return nil
@@ -455,8 +483,10 @@ func (sx *symxer) loadCellAt(al *ssa.Alloc, at ssa.Instruction, d int) *Sx {
 		vals = append(vals, sx.of(st.Val, d-1))
 	}
 	if len(vals) == 1 {
+		sx.lastSingle = ord[0].Val
 		return vals[0]
 	}
+	sx.lastSingle = nil
 	return &Sx{Op: "phi", Args: vals}
 }
 
@@ -510,7 +540,7 @@ func (sx *symxer) loadCell(al *ssa.Alloc, path string, d int) *Sx {
 					a2, p2, ok = addrPath(s.Addr)
 				}
 				if ok && a2 == al {
-					if p2 == path || strings.HasPrefix(path, p2) || strings.HasPrefix(p2, path) {
+					if p2 == path || strings.HasPrefix(path, p2+".") || strings.HasPrefix(p2, path+".") || p2 == "" || path == "" {
 						stores = append(stores, s)
 					}
 				}
@@ -544,7 +574,9 @@ func (sx *symxer) loadCell(al *ssa.Alloc, path string, d int) *Sx {
 		return &Sx{Op: "const", Name: "zero:" + types.TypeString(al.Type(), shortQual) + path}
 	}
 	if len(exact) == 1 {
-		return sx.of(exact[0].Val, d-1)
+		r := sx.of(exact[0].Val, d-1)
+		sx.lastSingle = exact[0].Val
+		return r
 	}
 	var args []*Sx
 	for _, s := range exact {
